@@ -454,6 +454,7 @@ func c06ManagerHistoryProp(rec *vk.Rec, ext bool) func(*rapid.T) {
 		flapOps, flapReleases, flapAttempts, flapAttemptOK := 0, 0, 0, 0
 		releasedWhileGone, allocAfterGoneRelease := false, false
 		reusableRuns, reusableOK, unalignedRuns, targetRuns, targetOK := 0, 0, 0, 0, 0
+		preemptRuns, preemptOK, preemptOffZero, preemptBoundary := 0, 0, 0, 0
 
 		check := func(where string) bool {
 			na := rm.GetNodeAllocation(nodeName)
@@ -1070,6 +1071,210 @@ func c06ManagerHistoryProp(rec *vk.Rec, ext bool) func(*rapid.T) {
 					}
 				}
 			}
+			// Preemption dry run (plugin RemovePod + tryAllocateFromNode / GetTopologyHints): the victims are live pods; what they
+			// would give back is read from the manager exactly as preempt.go getPodAllocated does (GetAllocatedCPUSet,
+			// GetAllocatedNUMAResource), summed per NUMA node id (preemptibleAlloc.Accumulate) and passed as preemptibleCPUs /
+			// reusableResources to an uncommitted Allocate with a NUMA hint. Oracle from the model only: what is "free for this pod"
+			// on a NUMA node is its capacity minus what the live pods that are NOT victims hold there. On success nothing more than
+			// that is handed out from any NUMA node (and the amounts are exact, inside the hint); a request without cpu-bind (cpu and
+			// memory are then freely divisible) must succeed whenever the hinted nodes together have that much free for this pod.
+			actions["preemptionDryRun"] = func(t *rapid.T) {
+				if dead {
+					return
+				}
+				uids := c06SortedUIDs(live)
+				if len(uids) == 0 {
+					t.Skip("no live pod")
+				}
+				var victims []types.UID
+				vmask := rapid.SliceOfN(rapid.Bool(), len(uids), len(uids)).Draw(t, "victimMask")
+				for i, u := range uids {
+					if vmask[i] {
+						victims = append(victims, u)
+					}
+				}
+				if len(victims) == 0 {
+					victims = []types.UID{rapid.SampledFrom(uids).Draw(t, "victim")}
+				}
+				isVictim := map[types.UID]bool{}
+				offZero := false
+				reusable := map[int]corev1.ResourceList{}
+				preemptible := cpuset.NewCPUSet()
+				for _, v := range victims {
+					isVictim[v] = true
+					for i, r := range live[v].NUMANodeResources {
+						if r.Node != i {
+							offZero = true
+						}
+					}
+					if cpus, ok := rm.GetAllocatedCPUSet(nodeName, v); ok && !cpus.IsEmpty() {
+						preemptible = preemptible.Union(cpus)
+					}
+					if nr, ok := rm.GetAllocatedNUMAResource(nodeName, v); ok {
+						for nid, rl := range nr { // summation is order independent
+							if reusable[nid] == nil {
+								reusable[nid] = corev1.ResourceList{}
+							}
+							for rn, q := range rl {
+								cur := reusable[nid][rn]
+								cur.Add(q)
+								reusable[nid][rn] = cur
+							}
+						}
+					}
+				}
+				// model: free for this pod, per NUMA node, in milli units
+				free := make([]map[corev1.ResourceName]int64, topo.NumNodes)
+				for i := range free {
+					free[i] = map[corev1.ResourceName]int64{corev1.ResourceCPU: int64(topo.CPUsPerNode()) * 1000, corev1.ResourceMemory: memPerNode * 1000}
+				}
+				ref := map[int]int{}
+				for _, uid := range uids {
+					if isVictim[uid] {
+						continue
+					}
+					for _, id := range live[uid].CPUSet.ToSliceNoSort() {
+						ref[id]++
+					}
+					for _, r := range live[uid].NUMANodeResources {
+						for rn, q := range r.Resources {
+							free[r.Node][rn] -= q.MilliValue()
+						}
+					}
+				}
+				var hint []int
+				for i := 0; i < topo.NumNodes; i++ {
+					if rapid.Bool().Draw(t, "hintBit") {
+						hint = append(hint, i)
+					}
+				}
+				if len(hint) == 0 {
+					hint = []int{rapid.IntRange(0, topo.NumNodes-1).Draw(t, "hintOne")}
+				}
+				sumFree := map[corev1.ResourceName]int64{}
+				for _, h := range hint {
+					for rn, v := range free[h] {
+						sumFree[rn] += v
+					}
+				}
+				cpuBind := rapid.IntRange(0, 2).Draw(t, "cpuBind") == 0
+				boundary := false
+				pick := func(sum, max int64, label string) int64 { // around what the hinted nodes have free for this pod
+					if sum < 0 {
+						sum = 0
+					}
+					switch rapid.IntRange(0, 3).Draw(t, label+"Kind") {
+					case 0:
+						boundary = true
+						return sum
+					case 1:
+						boundary = true
+						return sum + 1
+					case 2:
+						return rapid.Int64Range(0, sum).Draw(t, label)
+					default:
+						return rapid.Int64Range(0, max+1).Draw(t, label)
+					}
+				}
+				req := corev1.ResourceList{}
+				n := 0
+				if cpuBind {
+					n = int(pick(sumFree[corev1.ResourceCPU]/1000, int64(len(all)), "needCPUs"))
+					if n < 1 {
+						n = 1
+					}
+					req[corev1.ResourceCPU] = *resource.NewMilliQuantity(int64(n)*1000, resource.DecimalSI)
+				} else {
+					m := pick(sumFree[corev1.ResourceCPU], int64(len(all))*1000, "milli")
+					if m < 1 {
+						m = 1
+					}
+					req[corev1.ResourceCPU] = *resource.NewMilliQuantity(m, resource.DecimalSI)
+				}
+				if rapid.Bool().Draw(t, "wantMem") {
+					req[corev1.ResourceMemory] = *resource.NewQuantity(pick(sumFree[corev1.ResourceMemory]/1000, memPerNode*int64(topo.NumNodes), "mem"), resource.BinarySI)
+				}
+				opts := &ResourceOptions{numCPUsNeeded: n, requestCPUBind: cpuBind, requests: req.DeepCopy(), originalRequests: req.DeepCopy(),
+					cpuBindPolicy: schedulingconfig.CPUBindPolicyDefault, topologyOptions: tom.GetTopologyOptions(nodeName),
+					preemptibleCPUs: preemptible, reusableResources: reusable, hint: topologymanager.NUMATopologyHint{NUMANodeAffinity: c06Mask(hint)}}
+				pod := &corev1.Pod{}
+				pod.UID, pod.Name, pod.Namespace = "preemptor", "preemptor", "default"
+				preemptRuns++
+				if offZero {
+					preemptOffZero++
+					if boundary {
+						preemptBoundary++
+					}
+				}
+				a, st := rm.Allocate(node, pod, opts)
+				hist = append(hist, fmt.Sprintf("preemptionDryRun victims=%v cpuBind=%v hint=%v req=%v (restored: cpus=%s numa=%v) -> %v (not committed)",
+					victims, cpuBind, hint, c06RLOne(req), preemptible, c06RL(reusable), c06AllocStr(a)))
+				if !st.IsSuccess() {
+					if !cpuBind {
+						enough := true
+						for rn, q := range req {
+							if sumFree[rn] < q.MilliValue() {
+								enough = false
+							}
+						}
+						if enough {
+							dead = true
+							c.Violation(t, "history:preempt-dry-run:refused-though-enough", "request %v refused (%s) although the hinted NUMA nodes %v have %v milli free for this pod once the victims %v are gone (per node %v); history=%v",
+								c06RLOne(req), st.Message(), hint, sumFree, victims, free, hist)
+						}
+					}
+					return
+				}
+				preemptOK++
+				sum := map[corev1.ResourceName]int64{}
+				for _, r := range a.NUMANodeResources {
+					in := false
+					for _, h := range hint {
+						if h == r.Node {
+							in = true
+						}
+					}
+					if !in {
+						dead = true
+						c.Violation(t, "history:numa-outside-hint", "allocated on NUMA %d outside hint %v; history=%v", r.Node, hint, hist)
+						return
+					}
+					for _, rn := range []corev1.ResourceName{corev1.ResourceCPU, corev1.ResourceMemory} {
+						q, ok := r.Resources[rn]
+						if !ok {
+							continue
+						}
+						sum[rn] += q.MilliValue()
+						if q.MilliValue() > free[r.Node][rn] {
+							dead = true
+							c.Violation(t, "history:preempt-dry-run:numa-over-free", "NUMA %d: %d milli %s handed out, but only %d milli are free for this pod there once the victims %v are gone (per node %v); history=%v",
+								r.Node, q.MilliValue(), rn, free[r.Node][rn], victims, free, hist)
+							return
+						}
+					}
+				}
+				for _, rn := range []corev1.ResourceName{corev1.ResourceCPU, corev1.ResourceMemory} {
+					if q, ok := req[rn]; ok && sum[rn] != q.MilliValue() {
+						dead = true
+						c.Violation(t, "history:numa-not-exact", "%s requested %d milli, NUMA allocation sums to %d; history=%v", rn, q.MilliValue(), sum[rn], hist)
+						return
+					}
+				}
+				if cpuBind {
+					if a.CPUSet.Size() != n {
+						dead = true
+						c.Violation(t, "history:wrong-count", "asked %d CPUs got %v; history=%v", n, a.CPUSet, hist)
+						return
+					}
+					for _, id := range a.CPUSet.ToSliceNoSort() {
+						if reserved.Contains(id) || ref[id] >= maxRef {
+							dead = true
+							c.Violation(t, "history:dry-run-took-held-cpu", "preemption dry run got cpu %d (holders that stay %d, limit %d, reserved=%v); history=%v", id, ref[id], maxRef, reserved.Contains(id), hist)
+							return
+						}
+					}
+				}
+			}
 		}
 		t.Repeat(actions)
 		if ext {
@@ -1084,6 +1289,11 @@ func c06ManagerHistoryProp(rec *vk.Rec, ext bool) func(*rapid.T) {
 			c.ClassIf(targetRuns > 0, "reusable-unaligned+numa-hint+required-fullpcpus+whole-core-request")
 			c.ClassIf(targetOK > 0, "reusable-unaligned+numa-hint+required-fullpcpus+whole-core-request:success")
 			c.ClassIf(targetRuns > targetOK, "reusable-unaligned+numa-hint+required-fullpcpus+whole-core-request:refused")
+			c.ClassIf(preemptRuns > 0, "preempt-dry-run")
+			c.ClassIf(preemptOK > 0, "preempt-dry-run-success")
+			c.ClassIf(preemptRuns > preemptOK, "preempt-dry-run-refused")
+			c.ClassIf(preemptOffZero > 0, "preempt-victim-numa-nodes-not-0..k")
+			c.ClassIf(preemptBoundary > 0, "preempt-victim-numa-nodes-not-0..k+request-at-the-free-boundary")
 		}
 		c.ClassIf(sawShared, "cpu-shared-by-2")
 		c.ClassIf(sawNUMA, "numa-hint-allocation")
@@ -1096,8 +1306,8 @@ func c06ManagerHistoryProp(rec *vk.Rec, ext bool) func(*rapid.T) {
 			c.NonTrivial(hist)
 		}
 		// ext: a recorded pod was released while the node had no topology, or a required policy was evaluated with a NUMA hint
-		// over reusable CPUs that are not core-aligned
-		if ext && len(hist) >= 3 && (flapReleases > 0 || targetRuns > 0) {
+		// over reusable CPUs that are not core-aligned, or a preemption dry run had a victim whose NUMA node list is not {0..k}
+		if ext && len(hist) >= 3 && (flapReleases > 0 || targetRuns > 0 || preemptOffZero > 0) {
 			c.NonTrivial(hist)
 		}
 		c.Sample(map[string]any{"topo": []int{tp.Sockets, tp.NodesPerSocket, tp.CoresPerNode, tp.Threads}, "maxRef": maxRef, "reserved": reserved.String(), "memPerNode": memPerNode, "history": hist})
